@@ -1,11 +1,12 @@
 from .common import COMMON_TB
 
 CFG = dict(
-    coq=["Properties/C16.v", "Properties/C16Readers.v"],
+    coq=["Properties/C16.v", "Properties/C16Readers.v", "Properties/C02Compose.v"],
     areas=["lzmadec", "c12"],
     level="proof",
     theorems_expected=["C16_range_decoder_consumes_exactly", "C16_decode_leaves_tail", "C16_lzma2_payload_exact",
-                       "C16_lzma1_reader_leaves_tail", "C16_lzma1_header_reader_leaves_tail", "C16_lzma2_reader_leaves_tail", "C16_xz_single_stream_leaves_rest"],
+                       "C16_lzma1_reader_leaves_tail", "C16_lzma1_header_reader_leaves_tail", "C16_lzma2_reader_leaves_tail", "C16_xz_single_stream_leaves_rest",
+                       "C16_xz_single_stream_lzma2", "C16_xz_single_stream_lzma2_delta"],
     rule="lzmadec: streams written by the crate's LZMA/LZMA2 writers under random in-range options, followed by trailing bytes "
          "(none, zeros, random), read through LZMAReader (end marker; declared size without marker) and LZMA2Reader with a "
          "destination-size history; after the reader returned end of stream the number of source bytes not consumed is compared with the "
